@@ -91,6 +91,9 @@ def build_items(ctx, quick):
             continue
         seen.add(key)
         items.append(dict(id="m%d" % n, text=text, inst=inst, builds=1 + n % 3))
+        if n % 5 == 0:      # the input ends inside a comment / in trailing blanks, without a final line break
+            tail = [" // end", "//", "\n\n// last line", "  \t", " // a\r\n// b"][(n // 5) % 5]
+            items.append(dict(id="m%dt" % n, text=text + tail, inst=inst if any(x in "tT" for x in inst) else inst + ["t"], builds=1 + n % 2))
     # deep nestings (sampled behaviours of the same spec: tlc -simulate)
     deep = ctx.tlc("MC_C04", "MC_C04_deep.cfg", workers=4, timeout=1200, xss="256m", simulate="num=%d" % (5 if quick else 40),
                    extra=["-depth", "16", "-seed", str(ctx.seed)])
